@@ -9,7 +9,7 @@ compares what it observes with the dataflow semantics of the property statements
 interpreter over the pipeline description (`Ref` below).
 
 Bound (stated in the evidence):
-  acyclic family   13 templates (plain, shared, switch, one-of, nested constructs; <= 8 node classes) x every placement of at
+  acyclic family   15 templates (plain, shared, switch, one-of, nested constructs; <= 8 node classes) x every placement of at
                    most one failing node x both switch labels x 5 completion orders; each chart is run, run again, run
                    twice overlapped, and (after a failing placement) run once more with nothing failing
   retry family     attempts in {1,2,3} x use_default x exceptions in {narrow, default} x every outcome sequence over
@@ -41,7 +41,7 @@ from ml_pipeline_engine.node import ProcessorBase, RecurrentProcessor
 import logging
 logging.disable(logging.CRITICAL)
 
-BOUND = ('acyclic: 13 templates x <=1 failing node at every position x both switch labels x 5 completion orders x '
+BOUND = ('acyclic: 15 templates x <=1 failing node at every position x both switch labels x 5 completion orders x '
          '(first run, second run, two overlapped runs); retry: attempts 1..3 x use_default x narrow/default exceptions x '
          'all outcome sequences; recurrent: 3 templates x 0..max+1 requested re-iterations x default / no default, and a retrying '
          'node inside a recurrent subgraph x 25 outcome sequences')
@@ -185,6 +185,12 @@ def acyclic_templates():
         In=RAW, D=[('d', ('in', 'In'))], A=[('a', ('in', 'In'))], BS=[('s', ('in', 'In'))], B=[('b', ('in', 'BS'))],
         F=[('f', ('oneof', ['A', 'B']))], G=[('g', ('in', 'F'))], Y=[('y', ('in', 'In'))],
         Out=[('p', ('sw', 'D', [('l0', 'G'), ('l1', 'Y')])), ('q', ('in', 'F'))])))
+    T.append(('uneven-depths', dict(In=RAW, A1=[('a', ('in', 'In'))], A2=[('a', ('in', 'A1'))], B=[('b', ('in', 'In'))],
+                                    Out=[('p', ('in', 'A2')), ('q', ('in', 'B'))])))
+    T.append(('wide-and-deep', dict(In=RAW, A=[('a', ('in', 'In'))], B=[('b', ('in', 'In'))], C=[('c', ('in', 'In'))],
+                                    U=[('u', ('in', 'A'))], V=[('v', ('in', 'U'))],
+                                    W=[('w1', ('in', 'A')), ('w2', ('in', 'B')), ('w3', ('in', 'C'))],
+                                    Out=[('p', ('in', 'V')), ('q', ('in', 'W'))])))
     T.append(('shared-node-behind-a-switch-branch-and-the-main-pipeline', dict(
         In=RAW, D=[('d', ('in', 'In'))], Pre=[('p', ('in', 'In'))], Pre2=[('p', ('in', 'Pre'))], Shared=[('s', ('in', 'Pre2'))],
         A=[('a', ('in', 'Shared'))], B=[('b', ('in', 'In'))], F=[('f', ('in', 'In'))],
@@ -330,7 +336,11 @@ def materialise(spec, tag, obs, cfg):
             async def body(self, **kw):
                 k = obs.note('node body', name)
                 obs.calls.append((k, name, dict(kw)))
-                await asyncio.sleep(cfg['delays'].get(name, 0))
+                obs.times.append((k, name, 'start', time.monotonic()))
+                try:
+                    await asyncio.sleep(cfg['delays'].get(name, 0))
+                finally:
+                    obs.times.append((k, name, 'end', time.monotonic()))
                 if name in cfg['failing']:
                     raise Boom(name)
                 return cfg['label'] if name in dec else base(name) + sum(x for x in kw.values() if isinstance(x, int))
@@ -396,6 +406,24 @@ def check_acyclic(tname, spec, tag, key, cfg, kind, res, obs, case):
         for n in ref.needed():
             if count.get(n, 0) != 1:
                 fail('C01', tname, case, f'node {n} executed {count.get(n, 0)} times although the output consumes its value', 'exactly once')
+    # ---- C06: independent nodes of equal depth are in flight together (plain dependencies only)
+    if not has_sw and not any(m[0] == 'oneof' for ps in spec.values() for _p, m in ps) and want[0] == 'ok':
+        depth = {}
+
+        def dep(n):
+            if n not in depth:
+                depth[n] = 0 if n == 'In' else 1 + max([dep(r) for r in refs(spec, n)] or [0])
+            return depth[n]
+        tm = {}
+        for k, n, what, t_ in obs.times:
+            if k == key:
+                tm[(n, what)] = t_
+        names = [n for n in spec if (n, 'start') in tm and (n, 'end') in tm]
+        for u in names:
+            for v in names:
+                if u != v and dep(u) == dep(v) and cfg['delays'].get(u, 0) >= 0.006 and tm[(v, 'start')] > tm[(u, 'end')]:
+                    fail('C06', tname, case, f'{v} (depth {dep(v)}) was started only after {u} (same depth, {cfg["delays"].get(u)} s long) had finished',
+                         'independent nodes of equal depth run concurrently')
     ev = [(kd, n, p) for k, kd, n, p in obs.events if k == key]
     kinds = [e[0] for e in ev]
     if not ev or kinds[0] != 'pipeline_start' or kinds[-1] != 'pipeline_complete' or kinds.count('pipeline_start') != 1 \
@@ -471,9 +499,23 @@ async def acyclic(only_templates=None):
                         N_CASES[0] += 1
                         results = await asyncio.gather(*[run_keyed(chart, k, obs) for k in keys])
                         await settle(obs, tname, f'{case} run={mode}')
+                        n_before = len(FAILURES)
                         for k, (kind, res) in zip(keys, results):
                             check_acyclic(tname, spec, tag, k, cfg, kind, res, obs, f'{case} run={mode}')
                             hung = hung or kind == 'hung'
+                        suspects = [f_ for f_ in FAILURES[n_before:] if f_['property'] == 'C06']
+                        if suspects:
+                            # timing-based: confirm with every delay five times longer before reporting (a stalled
+                            # machine must not look like lost concurrency)
+                            FAILURES[n_before:] = [f_ for f_ in FAILURES[n_before:] if f_['property'] != 'C06']
+                            slow = dict(cfg, delays={n_: max(0.03, 5 * d_) for n_, d_ in delays.items()})
+                            cfg['delays'] = slow['delays']
+                            kind, res = await run_keyed(chart, 6, obs)
+                            await settle(obs, tname, f'{case} confirmation run')
+                            n1 = len(FAILURES)
+                            check_acyclic(tname, spec, tag, 6, slow, kind, res, obs, f'{case} run={mode} (confirmed with 5x delays)')
+                            FAILURES[n1:] = [f_ for f_ in FAILURES[n1:] if f_['property'] == 'C06']
+                            cfg['delays'] = delays
                         if hung:
                             break
                     if not hung and failing:
